@@ -797,7 +797,10 @@ class Pile(Widget, WidgetContainerMixin, WidgetContainerListContentsMixin):
         wtotal = 0
         for w, (f, height) in self.contents:
             if f == WHSettings.PACK:
-                rows = w.rows((maxcol,), focus=focus and self.focus == w)
+                if Sizing.FLOW in w.sizing() or Sizing.FIXED not in w.sizing():
+                    rows = w.rows((maxcol,), focus=focus and self.focus == w)
+                else:  # fixed-only widget: get_rows_sizes() hands it (), so it takes the rows it packs to
+                    rows = w.pack((), focus and self.focus == w)[1]
                 rows_numbers.append(rows)
                 remaining -= rows
             elif f == WHSettings.GIVEN:
